@@ -1,14 +1,18 @@
 #!/bin/sh
 # usage: seedtest.sh <property> <patch.diff> [tier]  — applies a seeded change to /repo (or $VERIF_REPO), runs the
-# check, undoes it. A partial evidence file is written by that run: regenerate evidence on the clean tree afterwards.
+# check, undoes it and puts the evidence file of the unchanged tree back.
 P="$1"; PATCH="$2"; TIER="${3:-quick}"
 R="${VERIF_REPO:-/repo}"
 cd "$R" || exit 2
 git diff --quiet || { echo "$R not clean"; exit 2; }
 git apply "$PATCH" || { echo "patch does not apply"; exit 2; }
 OUT=$(mktemp /tmp/seedtest.$P.XXXXXX)
+# the evidence of the unchanged tree is put back afterwards (this run describes a changed one)
+EV=/verif/evidence/$P.json
+[ -f "$EV" ] && cp "$EV" "$OUT.ev"
 /verif/check "$P" "$TIER" > "$OUT" 2>&1
 rc=$?
+[ -f "$OUT.ev" ] && mv "$OUT.ev" "$EV"
 git -C "$R" checkout -- .
 echo "exit=$rc"
 grep -c "^VIOLATION" "$OUT" | sed 's/^/violation lines: /'
